@@ -23,7 +23,7 @@ def int_unit(ty, comp, n, M, fdir):
     }
 
     #[kani::proof]
-    #[kani::unwind(6)]
+    #[kani::unwind(10)]
     fn a4_%(fdir)s_multiply() {
         let s0: %(arr)s = kani::any();
         let s1: %(arr)s = kani::any();
@@ -43,7 +43,7 @@ def int_unit(ty, comp, n, M, fdir):
     }
 
     #[kani::proof]
-    #[kani::unwind(6)]
+    #[kani::unwind(10)]
     fn a4_%(fdir)s_divide() {
         let s0: %(arr)s = kani::any();
         let s1: %(arr)s = kani::any();
